@@ -132,13 +132,13 @@ class Mutator:
                     x[infinite_idx] = x[idx]
                     u[infinite_idx] = u[idx]
                     logl[infinite_idx] = logl[idx]
-                    if self.have_blobs:
+                    if blobs is not None:
                         blobs[infinite_idx] = blobs[idx]
 
                     self.state.set_current("x", x)
                     self.state.set_current("u", u)
                     self.state.set_current("logl", logl)
-                    if self.have_blobs:
+                    if blobs is not None:
                         self.state.set_current("blobs", blobs)
 
                 # Correct logZ for fraction of prior with finite likelihood support
@@ -148,11 +148,9 @@ class Mutator:
                 self.state.set_current("logz", logz)
             return
 
-        blobs = (
-            self.state.get_current("blobs")
-            if self.have_blobs and self.state.get_current("blobs") is not None
-            else None
-        )
+        # Blobs travel with the particles whenever the likelihood returns them,
+        # also when their dtype is inferred (blobs_dtype=None) rather than configured
+        blobs = self.state.get_current("blobs")
 
         (
             u,
@@ -193,7 +191,7 @@ class Mutator:
             }
         )
 
-        if self.have_blobs:
+        if blobs is not None:
             self.state.set_current("blobs", blobs.copy())
 
         calls = self.state.get_current("calls") + mcmc_calls
